@@ -204,6 +204,8 @@ def run_case(case):
     peer = ("10.1.2.3", 4567)
     c = env.connect(peer=peer)
     stream = case["stream"]
+    if case.get("follow"):
+        stream = stream + FOLLOW
     c.send(stream)
     wire, closed = c.wire, c.closed
     if not c.closed and c.ch is not None:
@@ -211,9 +213,29 @@ def run_case(case):
     return got, wire, list(env.escaped)
 
 
+FOLLOW = b"PUT /p/next?z=9 HTTP/1.1\r\nHost: second\r\nX-Second: 2\r\nContent-Length: 2\r\n\r\nzz"
+
+
 def judge(case, got, wire, escaped):
     v = []
     cfg = CONFIGS[case["cfg"]]
+    if case.get("follow") and len(got) == 2:
+        # the request behind it must be seen with its own fields only
+        evs2 = refhttp.parse_requests(FOLLOW)
+        peer = ("localhost", None) if cfg["unix"] else ("10.1.2.3", 4567)
+        want2 = environ_of(evs2[0], cfg, peer)
+        img2 = dict(got[1][0])
+        if cfg["unix"]:
+            want2.pop("SERVER_PORT")
+            img2.pop("SERVER_PORT", None)
+        if img2 != want2 or got[1][1] != b"zz":
+            diff = {k: (img2.get(k), want2.get(k)) for k in set(img2) | set(want2) if img2.get(k) != want2.get(k)}
+            v.append(("pipelined-request-image", f"the request pipelined behind the case is seen as {diff} body={got[1][1]!r} (stream {case['stream'][:80]!r})"))
+        got = got[:1]
+    elif case.get("follow") and len(got) == 1:
+        evs = refhttp.parse_requests(case["stream"])
+        if evs and isinstance(evs[0], refhttp.Msg) and not (evs[0].conn_close or evs[0].must_close):
+            v.append(("pipelined-request-lost", f"the request pipelined behind the case was not delivered (stream {case['stream'][:80]!r})"))
     for e in escaped:
         v.append((f"escaped:{e[1]}", str(e)))
     evs = refhttp.parse_requests(case["stream"])
@@ -266,6 +288,8 @@ def cases(tier):
                 continue
             stream = build_request(method, target, ver, HEADER_SETS[hs], body)
             yield dict(cfg=ci, stream=stream, label=(method, ver, target, hs, body))
+            if ver == b"HTTP/1.1" and (tier == "thorough" or target in (b"/", b"/a%20b", b"http://h/p?q=1")):
+                yield dict(cfg=ci, stream=stream, label=(method, ver, target, hs, body), follow=True)
 
 
 def _batch(items):
@@ -314,12 +338,12 @@ def main(tier, only=None):
     for k, lst in sorted(seen.items()):
         lst.sort(key=lambda x: len(x[1]["stream"]))
         what, case = lst[0]
-        run.violation(k, f"{what} | stream={case['stream'][:200]!r} [{len(lst)} cases]", {"cfg": case["cfg"], "stream": case["stream"].decode("latin-1")})
+        run.violation(k, f"{what} | stream={case['stream'][:200]!r} [{len(lst)} cases]", {"cfg": case["cfg"], "stream": case["stream"].decode("latin-1"), "follow": case.get("follow", False)})
     return run.finish()
 
 
 def replay(rep):
-    case = dict(cfg=rep["cfg"], stream=rep["stream"].encode("latin-1"), label=None)
+    case = dict(cfg=rep["cfg"], stream=rep["stream"].encode("latin-1"), label=None, follow=rep.get("follow"))
     got, wire, escaped = run_case(case)
     print("environ:", got)
     v = judge(case, got, wire, escaped)
